@@ -393,6 +393,7 @@ int bufr_load_wmo_tables( BUFR_Tables *tables )
          {
          int  len;
          len = pmatch[2].rm_eo - pmatch[2].rm_so;
+         if (len > (int)sizeof(string)-1) len = sizeof(string)-1;
          strncpy( string, path+pmatch[2].rm_so, len );
          string[len] = '\0';
          tables->master.version = atol( string );
@@ -429,6 +430,7 @@ int bufr_load_wmo_tables( BUFR_Tables *tables )
                   {
                   int  len;
                   len = pmatch[2].rm_eo - pmatch[2].rm_so;
+                  if (len > (int)sizeof(string)-1) len = sizeof(string)-1;
                   strncpy( string, rtrn+pmatch[2].rm_so, len );
                   string[len] = '\0';
                   tables->master.version = atol( string );
